@@ -1,5 +1,6 @@
 import OutlineModel.Props.C06
 import OutlineModel.Model.MConn
+import OutlineModel.Gen.Decisions
 /-
 C15 — TCP connection metrics match what happened on the wire.
 
@@ -298,5 +299,15 @@ theorem sent_le_requested (ops : List MConn.Op)
 example : (MConn.run {} [.write 1000 500, .readFrom false [(1000, 1000), (1000, 500), (1000, 1000)], .read 7]) = { rd := 7, wr := 2000 } := by decide
 example : requested [.write 1000 500, .readFrom false [(1000, 1000), (1000, 500), (1000, 1000)]] = 4000 := by decide
 end MeasuredConn
+
+
+/-- **status_alphabet_as_modelled**: the statuses the TCP path can construct, as a regenerated table:
+    those of the authenticator and handler models (ERR_CIPHER, ERR_REPLAY_CLIENT, ERR_REPLAY_SERVER,
+    ERR_READ_ADDRESS, ERR_CONNECT, ERR_RELAY_CLIENT; OK and the policy statuses of C05 come from
+    elsewhere) and ERR_RELAY_TARGET, which only a failing target connection produces and the model
+    does not have.  A status added or renamed in the source changes the table. -/
+theorem status_alphabet_as_modelled :
+    Gen.Decisions.tcpStatuses = ["ERR_CIPHER", "ERR_CONNECT", "ERR_READ_ADDRESS", "ERR_RELAY_CLIENT", "ERR_RELAY_TARGET",
+      "ERR_REPLAY_CLIENT", "ERR_REPLAY_SERVER"] := by decide
 
 end OutlineModel.Props.C15
